@@ -366,8 +366,10 @@ def run_graders(ctx):
             numbered = rng.random() < 0.7
             idx = rng.choice([0, 1, 3, 12, -2])
             nm = 'c_{%d}' % idx if numbered else 'c'
-            g1 = FormulaGrader(variables=['x'], sample_from={'x': [21, 22]}, samples=3)
-            g2 = FormulaGrader(variables=['x'] + ([] if numbered else ['c']), numbered_vars=['c'] if numbered else [],
+            from mitxgraders import MatrixGrader
+            G2 = rng.choice([FormulaGrader, MatrixGrader])      # (a MatrixGrader is a formula grader too: siblings reach it the same way)
+            g1 = rng.choice([FormulaGrader, MatrixGrader])(variables=['x'], sample_from={'x': [21, 22]}, samples=3)
+            g2 = G2(variables=['x'] + ([] if numbered else ['c']), numbered_vars=['c'] if numbered else [],
                                sample_from={'x': [21, 22], 'c': DependentSampler(formula='sibling_1+1')},
                                user_functions={'rec2': rec2}, samples=3)
             g = ListGrader(answers=['x+1', 'rec2(%s, x)' % nm], subgraders=[g1, g2], ordered=True)
@@ -398,7 +400,8 @@ def run_graders(ctx):
             ctx.nontrivial(['sibsamp', first, second, nm])
         else:
             # sibling formulas in an ordered list: answer 2 is a function of input 1
-            sub = FormulaGrader(variables=['x'], sample_from={'x': [21, 22]}, user_functions={'rec2': rec2}, samples=3)
+            from mitxgraders import MatrixGrader
+            sub = rng.choice([FormulaGrader, FormulaGrader, MatrixGrader])(variables=['x'], sample_from={'x': [21, 22]}, user_functions={'rec2': rec2}, samples=3)
             g = ListGrader(answers=['x+1', 'rec2(sibling_1^2, x)'], subgraders=sub, ordered=True)
             for rep_first in rng.sample(['x+1', '1+x', 'x+2', '2*x', '', 'x+'], rng.randint(1, 4)):
                 # the same list grader is asked again and again: nothing of an earlier submission (valid, empty or malformed) may stay
@@ -440,7 +443,37 @@ def run_graders(ctx):
             ctx.nontrivial(['sib', i])
 
 
+def run_sum_constants(ctx):
+    """Samples of a summation grader carry every default constant, whatever constants OTHER graders chose to delete."""
+    from mitxgraders import SumGrader, DependentSampler
+    install_tap()
+    rng = ctx.rng
+    ans = {'lower': '1', 'upper': '3', 'summand': 'n*x', 'summation_variable': 'n'}
+    for i in range(ctx.pick(10, 100)):
+        deleted = rng.choice(['e', 'pi', 'i', 'j', 'infty'])
+        other = lib.call(ctx, lambda: SumGrader(answers=ans, variables=['x'], user_constants={deleted: None}))
+        TAP['records'] = []
+        g = SumGrader(answers=ans, variables=['x', 'd'], sample_from={'x': [21, 22], 'd': DependentSampler(formula='x+%s' % ('e' if deleted != 'infty' else 'pi'))},
+                      samples=2)
+        out = lib.call(ctx, g, None, ['1', '3', 'x*n', 'n'])
+        ctx.ev()
+        ctx.count('sum_constant_cases')
+        wit = {'another_grader_deleted': deleted, 'that_construction': other.brief() if not other.returned else 'ok', 'outcome': out.brief()}
+        ctx.nontrivial(['sumconst', deleted, i])
+        if not out.returned or out.value['ok'] is not True:
+            ctx.violation('C13:sum:verdict', 'identical sum not accepted: %r' % (out.brief(),), wit)
+        for smp_symbols, nsamp, consts, smp_list in TAP['records']:
+            if 'x' not in smp_symbols:
+                continue          # (the library also draws an empty symbol list for its function samples)
+            ctx.count('grader_sample_lists_tapped')
+            for smp in smp_list:
+                for c in ('pi', 'e', 'i', 'j', 'infty'):
+                    if c not in smp:
+                        ctx.violation('C13:sum:missing_constant', 'sample lacks %r after another grader deleted %r' % (c, deleted), dict(wit, sample=smp))
+
+
 def run(ctx):
     run_direct(ctx)
     run_cycles(ctx)
     run_graders(ctx)
+    run_sum_constants(ctx)
